@@ -11,7 +11,7 @@ src = f'{root}/out-{prop}/{m}'
 WT = '/tmp/seedv/wt'
 env = dict(os.environ, GOFLAGS='-mod=mod', GOPROXY='off', GOSUMDB='off', GOTOOLCHAIN='local')
 def sh(cmd, cwd=WT, timeout=1200):
-    p = subprocess.run(cmd, shell=True, cwd=cwd, env=env, capture_output=True, text=True, timeout=timeout)
+    p = subprocess.run(cmd, shell=True, cwd=cwd, env=env, capture_output=True, text=True, errors='replace', timeout=timeout)
     return p.returncode, p.stdout + p.stderr
 os.makedirs('/tmp/seedv', exist_ok=True)
 if not os.path.isdir(WT):
